@@ -1,7 +1,9 @@
 use crate::engine::{PropRun, RunCfg};
 
 pub mod c01_04;
+pub mod c05;
 pub mod c06;
+pub mod c07;
 pub mod c09;
 pub mod c10;
 pub mod c12;
@@ -19,7 +21,9 @@ pub fn run(cfg: RunCfg, verif_dir: &str) -> i32 {
         "C02" => c01_04::run_c02(&mut run),
         "C03" => c01_04::run_c03(&mut run),
         "C04" => c01_04::run_c04(&mut run),
+        "C05" => c05::run(&mut run),
         "C06" => c06::run(&mut run),
+        "C07" => c07::run(&mut run),
         "C09" => c09::run(&mut run),
         "C10" => c10::run(&mut run),
         "C12" => c12::run(&mut run),
@@ -39,7 +43,9 @@ pub fn run(cfg: RunCfg, verif_dir: &str) -> i32 {
 pub fn replay(id: &str, suite: &str, path: &str) -> Result<(), String> {
     match id {
         "C01" | "C02" | "C03" | "C04" => c01_04::replay(id, suite, path),
+        "C05" => c05::replay(suite, path),
         "C06" => c06::replay(suite, path),
+        "C07" => c07::replay(suite, path),
         "C09" => c09::replay(suite, path),
         "C10" => c10::replay(suite, path),
         "C12" => c12::replay(suite, path),
